@@ -396,7 +396,8 @@ def parse_facebook_url(url, allow_relative_urls=False):
 
             group_id_or_handle = parts[1]
 
-            if NUMERIC_ID_RE.match(group_id_or_handle):
+            # NOTE: same test as for the /permalink/ route of groups
+            if is_facebook_id(group_id_or_handle):
                 return FacebookPost(parts[3], group_id=group_id_or_handle)
             return FacebookPost(parts[3], group_handle=group_id_or_handle)
 
